@@ -122,6 +122,8 @@ def run(c):
     nchunk_unrealised = 0
 
     binp = c.go_build("httpingress", pkg="./cmd")
+    if c.replay and json.load(open(c.replay))["replay"]["plan"].get("kind") == "early-pairs":
+        c.replay = None        # the pair stages run after the tier's own plan: run the tier again
     if c.replay:
         plan = [json.load(open(c.replay))["replay"]["plan"]]
         plan[0]["id"] = 1
@@ -135,6 +137,9 @@ def run(c):
     # requests the client under test could not even transmit (declared length and body disagree, three times in a row against
     # a plain server): "a handler reads exactly the bytes the client was given" fails before any handler is reached
     cfails = vlib.read_ndjson(obsf + ".clientfail") if os.path.exists(obsf + ".clientfail") else []
+    for cfl in [x for x in cfails if x["id"] < 0][:5]:
+        c.violation("clause RoundTrip violated: %s" % cfl["what"], replay_obj=dict(plan=dict(kind="early-pairs"), observed=cfl, failed=["RoundTrip"]))
+    cfails = [x for x in cfails if x["id"] >= 0]
     for cfl in cfails[:5]:
         pl = next(p for p in plan if p["id"] == cfl["id"])
         c.violation("clause RoundTrip violated: the client built by confighttp refuses to send a valid body (inconsistent request): %s" % cfl["what"],
